@@ -6,7 +6,8 @@ SPEC = {
     "theorems": ["C04_refines", "C04_refines_all_histories", "C04_inv_reachable", "C04_wrappers_transparent",
                  "C04_get_after_set", "C04_get_after_delete", "C04_has_iff_get", "C04_iterate_exact",
                  "C04_deletePrefix_exact", "C04_batch_last_wins", "C04_cancel_noop", "C04_batch_handles_independent",
-                 "C04_closed_everything_fails", "C04_close_is_final"],
+                 "C04_closed_everything_fails", "C04_close_is_final", "C04_copy_refines", "C04_copy_spec", "C04_prefix_range",
+                 "C04_upperBound_none", "C04_concatBytes", "C04_copyBytes"],
     "trusted_base": [
         "hand-written model Hive/Model/KV.lean of kvstore/mapdb (+ flushkv, debug wrappers), tied to the working tree by "
         "line-by-line differential execution (harness/c04) on every run",
@@ -19,6 +20,9 @@ SPEC = {
         "Go map = association list without order; byteutils.ConcatBytes copies = value semantics of the model "
         "(aliasing is what the harness's buffer scribbling looks for)",
         "sort.Sort(sort.StringSlice) = insertion sort by bytewise order; strings.HasPrefix = List.isPrefixOf",
+        "kvstore.Copy / CopyBatched (Hive/Model/KVCopy.lean: Iterate snapshot + Set per entry / batches of n with a final commit), "
+        "kvstore.GetIterDirection, utils.KeyPrefixUpperBound, utils.CopyBytes, byteutils.ConcatBytes(ToString); two store trees = a pair "
+        "of independent model instances",
         "NOT modelled: the debug callback's arguments; an iteration direction other than forward/backward (GetIterDirection panics); "
         "mutation of a buffer held by a batch that is still going to be committed, and of the realm buffer passed to WithRealm "
         "(both are kept by reference in the code - measured on every run, evidence coverage.extra observation_* - the statement "
@@ -35,10 +39,16 @@ SPEC = {
                 "exactly the prefixed keys (C04_deletePrefix_exact); Commit applies the last call per key, Cancel nothing "
                 "(C04_batch_last_wins, C04_cancel_noop), and whatever is done with a batch handle - also a finished one - changes no "
                 "other batch (C04_batch_handles_independent); after Close every read/write/iteration/view/batch/Flush/Commit fails with "
-                "ErrStoreClosed forever (C04_closed_everything_fails, C04_close_is_final). Tie: differential run of the real packages "
+                "ErrStoreClosed forever (C04_closed_everything_fails, C04_close_is_final); two independent store trees with kvstore.Copy / "
+                "CopyBatched (any batch size) between or within them refine 'insert every entry of the source view under the target realm' "
+                "(C04_copy_refines, C04_copy_spec); a key carries prefix p iff p <= k < KeyPrefixUpperBound(p), no bound exactly for the "
+                "empty / all-0xff prefix (C04_prefix_range, C04_upperBound_none); ConcatBytes / CopyBytes (C04_concatBytes, C04_copyBytes). Tie: differential run of the real packages "
                 "against the compiled model over random view trees (depth<=3) x wrapper stacks x 40-op histories, with every buffer "
                 "passed to Set / finished batches and every buffer returned by reads scribbled over (private-copy clause), plus an "
-                "independent sorted-map oracle in Go.",
+                "independent sorted-map oracle in Go; every second history runs over two store trees with Copy/CopyBatched (batch sizes around the "
+                "view size) between them; a pure-helper stream (KeyPrefixUpperBound on all 781 prefixes of length <= 4 over {00,01,7f,fe,ff}, "
+                "ConcatBytes/ConcatBytesToString incl. aliasing with arguments that have spare capacity, CopyBytes, GetIterDirection) is compared "
+                "with the Lean definitions and with Go reference oracles.",
         "note": "Trusted: Lean kernel; the hand-written model (validated differentially on every run, not generated from the source); "
                 "the specification file. The private-copy clause is checked by the tie only (the model has value semantics). "
                 "Concurrency is C05.",
